@@ -205,4 +205,12 @@ theorem refines_BlockExtra : RefinesP PV (SrcBlk.BlockExtra false) blockExtra vi
     augKV (x := SrcBlk.AccountBlock false) (y := SrcTx.CurrencyCollection false) refines_AccountBlock.toE Tx.refines_CurrencyCollection 256,
     optRefK (r := SrcBlk.McBlockExtra) refines_McBlockExtra nonUnit_mcBlockExtra]
 
+/-- no `addr_var` inside, and the state update is an ordinary cell -/
+abbrev PB : Val → Prop := fun v => v.noVar = true ∧ ordinaryStateUpdate v = true
+
+theorem refines_Block : RefinesP PB (SrcBlk.Block false) block view_Block := by
+  tx_refine [block, SrcBlk.Block, view_Block, refK (r := Src.BlockInfo) refines_BlockInfo, refK (r := SrcBlk.ValueFlow) refines_ValueFlow,
+    refKP (r := SrcBlk.BlockExtra) refines_BlockExtra.toE, PB, ordinaryStateUpdate, Rd.merkleUpdateOrd]
+  all_goals simp_all [Val.get, List.lookup, Cell.exotic]
+
 end TonVerif.Tlb.Blk
